@@ -6,6 +6,7 @@ import (
 	"fmt"
 	"go/ast"
 	"go/constant"
+	"go/token"
 	"go/types"
 	"sort"
 	"strings"
@@ -608,4 +609,56 @@ func evalBoolFnOnEnum(g *ssa.Function, K int64) (bool, bool) {
 		return false, false
 	}
 	return seenT, true
+}
+
+func init() {
+	reg("C07-R6", "the index header page id in the catalog follows the index: an index kind that is re-attached to its persisted header page at a graceful launch may be created on new pages at a launch after a crash; RecoveryCatalogFromCatalogPage therefore compares, per column, the id the index reports after construction (Column.IndexHeaderPageID) with the id stored in the columns catalog, and on the side where they differ every path passes TableHeap.UpdateTuple before the comparison is evaluated again or the function returns", func(w *World, r *Report) {
+		a := w.A()
+		fn := w.Fn("catalog", "", "RecoveryCatalogFromCatalogPage")
+		idxHdr := w.MethodObj("storage/table/column", "Column", "IndexHeaderPageID")
+		getVal := w.MethodObj("storage/tuple", "Tuple", "GetValue")
+		n := 0
+		for _, b := range fn.Blocks {
+			i := blockIf(b)
+			if i == nil {
+				continue
+			}
+			var cmp *ssa.BinOp
+			DependsOn(i.Cond, func(x ssa.Value) bool {
+				bo, ok := x.(*ssa.BinOp)
+				if !ok || (bo.Op != token.NEQ && bo.Op != token.EQL) || cmp != nil {
+					return false
+				}
+				// one operand *is* the id the column reports now, the other comes from the stored row
+				isIdx := func(v ssa.Value) bool { return IsCallTo(idxHdr)(stripConv(v)) }
+				fromRow := func(v ssa.Value) bool { return !isIdx(v) && DependsOn(v, IsCallTo(getVal)) }
+				if (isIdx(bo.X) && fromRow(bo.Y)) || (isIdx(bo.Y) && fromRow(bo.X)) {
+					cmp = bo
+				}
+				return false
+			})
+			if cmp == nil {
+				continue
+			}
+			n++
+			// the block that evaluates the comparison, and its "differs" successor
+			cb := cmp.Block()
+			ci := blockIf(cb)
+			if ci == nil {
+				r.Bad("RecoveryCatalogFromCatalogPage:header-id-comparison-is-a-branch", "the comparison decides a branch", "comparison at "+w.Pos(cmp.Pos())+" is not a branch condition")
+				continue
+			}
+			base, neg := condBase(ci.Cond)
+			if base != ssa.Value(cmp) {
+				continue
+			}
+			differsSucc := 0
+			if (cmp.Op == token.EQL) != neg {
+				differsSucc = 1
+			}
+			wit := (&PathQ{Fn: fn, Avoid: InstrCallsObj(a.THUpdate), Target: func(in ssa.Instruction) bool { return isReturn(in) || in == ssa.Instruction(cmp) }}).FromAfterPos(cb.Succs[differsSucc])
+			r.Check(wit == nil, "RecoveryCatalogFromCatalogPage:changed-header-id-is-stored", "when an index reports another header page id than the catalog holds, the catalog row is updated", "path from the `differs` side to the next column / return without TableHeap.UpdateTuple: "+w.DescribeWitness(fn, wit))
+		}
+		r.Floor("comparisons of the reported and the stored index header page id", n, 1)
+	})
 }
